@@ -171,7 +171,7 @@ pub fn case_strategy() -> BoxedStrategy<Case> {
 pub fn run(tier: Tier, seed: u64) -> Report {
     let mut rep = Report::new("C01", tier, seed, RULE);
     rep.assume("planar oracle reuses the library's forward projection (pinned by C15) and pentagon placement (C17); ring oracle reuses cell_to_boundary (C11)");
-    let r = run_pbt("lookups", seed, tier.pick(12_000, 400_000), case_strategy, check_case, case_json);
+    let r = run_pbt("lookups", seed, tier.pick(40_000, 1_500_000), case_strategy, check_case, case_json);
     rep.absorb("lookups", r);
     rep
 }
